@@ -211,7 +211,10 @@ EvEnd ==
      /\ Check("C18", "EarlySignalHarmless", (run.sigEarly /\ e.exit = XSignaled) => ~run.mutated, e.exit)
   /\ UNCHANGED maxid
 
-Next == EvInit \/ EvDev \/ EvStart \/ EvOp \/ EvSig \/ EvEnd
+(* Breadlog's own reference-tagged log lines, in sequence with the operations (consumed by RunTrace's output protocol) *)
+EvLog == IsEv("log") /\ UNCHANGED <<tree, lock, maxid, written, run, tmp, at, lastCheck, clean>>
+
+Next == EvInit \/ EvDev \/ EvStart \/ EvOp \/ EvSig \/ EvEnd \/ EvLog
 Spec == Init /\ [][Next]_vars
 
 (* acceptance: every event consumed; on rejection name the first event that could not be matched *)
